@@ -233,6 +233,10 @@ def s13_3(ctx, prog):
         as_seq = [is_true(tk) for v, tk in branches_of(eff) if v[0] == 'app' and v[1] == 'is_sequence' and any(n_.split('::')[-1].split('#')[0] == 'pop' and x_ and x_[0] == rs for n_, x_ in apps(v))]
         if as_seq[:1] == [True]:
             continue
+        # ... and after the depth test established more than one entry, that pop cannot come back empty
+        pops_ = [tk for v, tk in branches_of(eff) if v[0] == 'app' and v[1] == 'discriminant' and v[2][0][0] == 'app' and v[2][0][1].split('::')[-1].split('#')[0] == 'pop' and v[2][0][2] == (rs,)]
+        if pops_[:1] and pops_[0] != C(1) and tests[:1] and tests[0](2) and not tests[0](1):
+            continue
         if ev == [] and err(ret, 'UnmatchedRBrace'):
             seen.add('closed-error')
             good = good and bool(first_test) and first_test[0](1) and not first_test[0](2)
@@ -249,6 +253,8 @@ def s13_3(ctx, prog):
                     # off and put back to receive the group, the net effect is one node fewer and no new level
                     level = ev[:ev.index('collapse', 1)]
                     good = good and level.count('pop') - level.count('push') == 1 and 'push-root' not in level
+                    # the closed group is handed to the enclosing level (never silently dropped: `1, () 2` would get a meaning)
+                    good = good and level.count('insert') == 1
                 else:
                     good = good and is_adt(ret, 'result::Result', 'Err') or ret[0] != 'adt' 
         else:
